@@ -352,6 +352,44 @@ theorem presented_eq_persisted_eq_next (cfg : Cfg) (d : Dir) (a : Args) (fresh :
 example : (start (exCfg true) [] exArgs exFresh).out
     = .ok ⟨List.replicate 20 0x55, List.replicate 32 0x66, List.replicate 24 0x88, 2⟩ := by decide
 
+/-! ### no hidden process state -/
+
+/-- A process serving two state directories: a history of starts, each addressed to directory
+    `false` or `true`.  In the model a start is a function of (directory contents, arguments,
+    randomness) and nothing else — the only state carried from one start to the next is the
+    directory itself; there is no per-process cache.  (For the code this is what the in-process
+    multi-start histories of the correspondence check test.) -/
+def runTwo (cfg : Cfg) : Dir × Dir → List (Bool × Args × JS) → List (Bool × Outcome) × (Dir × Dir)
+  | ds, [] => ([], ds)
+  | (d0, d1), (b, a, fresh) :: rest =>
+    let r := start cfg (if b then d1 else d0) a fresh
+    let ds' := if b then (d0, run d1 r.ops) else (run d0 r.ops, d1)
+    let (outs, fin) := runTwo cfg ds' rest
+    ((b, r.out) :: outs, fin)
+
+/-- **starts on one directory are unaffected by starts on another one in the same process**, and
+    several starts in one process behave exactly like the same starts in processes of their own:
+    the outcomes for directory 0 in any interleaved history, and its final contents, are those of
+    `runStarts` (one start after the other, state = directory contents) on directory 0 alone. -/
+theorem interleaved_directories_independent (cfg : Cfg) (d0 d1 : Dir) (h : List (Bool × Args × JS)) :
+    (((runTwo cfg (d0, d1) h).1.filter (fun p => !p.1)).map Prod.snd,
+      (runTwo cfg (d0, d1) h).2.1)
+      = runStarts cfg d0 ((h.filter (fun p => !p.1)).map Prod.snd) := by
+  induction h generalizing d0 d1 with
+  | nil => rfl
+  | cons x rest ih =>
+    obtain ⟨b, a, fresh⟩ := x
+    cases b with
+    | true =>
+      have := ih d0 (run d1 (start cfg d1 a fresh).ops)
+      simp only [runTwo, if_true, List.filter_cons, Bool.not_true, Bool.false_eq_true, if_false]
+      exact this
+    | false =>
+      have := ih (run d0 (start cfg d0 a fresh).ops) d1
+      simp only [runTwo, Bool.false_eq_true, if_false, List.filter_cons, Bool.not_false, if_true,
+        List.map_cons, runStarts]
+      rw [← this]
+
 /-! ### refused starts -/
 
 /-- **a refused start changes nothing**: when the directory holds a state file (readable or
